@@ -19,18 +19,18 @@ PROPS = {
         "suites": ["raw", "deadline"],
         "rule": "raw: all sequence pairs up to length 4 (thorough 5) over 3 symbols x 3 algorithms, all sub-range pairs of pairs up to length 3 (thorough 4) with slice and offset lookups, plus structured random pairs (7 families); non-trivial = at least one change and one equal item; distinct by request hash",
         "theorem_status": "LCS full (total + valid, every clock). Myers full (total + valid, every clock): Myers' middle-snake theory is formalised (furthest-reaching invariant, overlap at ceil(D/2), split point on an optimal path inside the box, not a corner) and discharges SnakeInBox/SnakeFound for every environment. Patience full (total + valid, every clock; needs the same-side comparisons of `unique` in bounds). Replay/coverage corollaries. Shift invariance full: diffing a sub-range = diffing the extracted slices with every index shifted by the range starts, all algorithms, every clock, aborts and counters included, also for arbitrary related hooks (Lemmas/Shift.lean).",
-        "level_text": "Lean theorems: LCS total+valid (all inputs, ranges, clocks); Myers partial correctness relative to the explicit hypothesis SnakeInBox; replay and coverage corollaries. Exact call traces, comparison and probe counts of all three algorithms are compared with the model on exhaustive small scopes and random inputs, and an independent strict walker validates the implementation's streams.",
+        "level_text": "Lean theorems: LCS, Myers and Patience total + valid (all inputs, in-bounds ranges, every clock; Myers' middle-snake theory formalised); replay and coverage corollaries; shift invariance of sub-range diffs. Exact call traces, comparison and probe counts of all three algorithms are compared with the model on exhaustive small scopes and random inputs, and an independent strict walker validates the implementation's streams.",
         "level_note": "the model is tied to the code by differential testing only; release-build wrap-around of usize is modelled as a panic (checked build)",
-        "assumptions": ["usize arithmetic modelled on Nat; overflow out of scope", "shift invariance of sub-range diffs is validated on the implementation (suite raw), not a theorem"],
+        "assumptions": ["usize arithmetic modelled on Nat; overflow out of scope", "in-bounds ranges (InBounds): cross comparisons inside the ranges are defined; Patience also the same-side comparisons of unique()"],
     },
     "C10": {
         "title": "Compact and Replace preserve meaning and cost of any valid script",
         "module": "SimilarVerif.Props.C10",
         "suites": ["script"],
         "rule": "script: every valid raw script (exact carried indices, split runs, insert-before-delete) over all pairs up to length 3 (thorough 4) over 2 symbols, plus random longer scripts with heavy repetition, through Replace, Compact, Compact+Replace, with the swap-repair switch off and on; non-trivial = script has a change and >= 2 calls",
-        "theorem_status": "Replace half full (all valid scripts). Compact half: proof in progress, covered by correspondence + validators.",
-        "level_text": "Lean theorem for Replace over any valid script (validity, item counts, alternation, exactness, finish once, world untouched); Compact model compared with the code on all valid scripts of a small scope and validated by an independent walker/normal-form checker.",
-        "level_note": "Compact clauses not yet proved; termination of the clean-up loops is not proved (the model aborts with `fuel`, which the correspondence would expose)",
+        "theorem_status": "full: Replace on all valid scripts; Compact (whenever it returns: validity, item counts, cost) and its totality/termination on valid input with exact or run-relative carried indices (quadratic round bound found by the termination proof); Compact then Replace valid, cost preserving, alternating",
+        "level_text": "Lean theorems for Replace and for Compact over any valid script (validity, item counts, alternation, exactness under the repaired swap, finish once, totality); Compact model compared with the code on all valid scripts of a small scope and validated by an independent walker/normal-form checker.",
+        "level_note": "the model's loop bounds (fuel) are proved sufficient (CompactT.cleanup_total_*); a `fuel` answer of the driver would be a disagreement",
     },
     "C12": {
         "title": "Grouping keeps every change once, in order, with exactly n items of context",
@@ -60,8 +60,8 @@ PROPS.update({
         "suites": ["cap", "deadline", "text"],
         "rule": "cap: capture_diff_deadline on all pairs up to length 4 (thorough 5) over 3 symbols, all sub-ranges of pairs up to 3 (thorough 4) with slice/offset lookups, structured random pairs; each case also through Compact(Replace(hook)) built by hand and with the repair switch; deadline: every expiry point; non-trivial = a change and an equal item",
         "theorem_status": "full for everything that follows from validity of the op list (application, coverage, ratio in [0,1], ratio = 1 iff no change iff element-wise equal) and for the Replace->Capture stage on any valid script; Compact stage and end-to-end factorisation of captureDiff into raw stream -> clean-up -> Replace proved (Lemmas/Capture.lean): whatever capture_diff_deadline returns is a valid alternating op list, all algorithms, every clock; identical inputs give exactly [Equal(os,ns,n)] (nothing for n = 0) for every algorithm and clock, never a panic (Lemmas/Identical.lean; Patience under EqPattern, counterexample without it recorded)",
-        "level_text": "Lean theorems about any valid op list and about the Replace stage; captured op lists of the implementation compared with the model exactly (incl. comparison/probe counts) and validated by an independent walker / replayer / ratio check.",
-        "level_note": "end-to-end statement for Myers/Patience inherits C01's hypotheses; f32 ratio is computed natively in the driver, theorems are over the exact fraction",
+        "level_text": "Lean theorems about any valid op list, the factorisation of the capture pipeline and its validity end to end for all three algorithms (unconditional), identical inputs give exactly one Equal op; captured op lists of the implementation compared with the model exactly (incl. comparison/probe counts) and validated by an independent walker / replayer / ratio check.",
+        "level_note": "f32 ratio is computed natively in the driver, theorems are over the exact fraction",
     },
     "C03": {
         "title": "Myers and LCS report a shortest edit script; ratio = 2*LCS/(N+M)",
@@ -69,7 +69,7 @@ PROPS.update({
         "suites": ["raw", "cap"],
         "rule": "raw/cap as for C01/C02; the validator computes a brute-force DP LCS for every Myers and LCS run (raw and captured) and compares deleted+inserted, equal total and the f32 ratio",
         "theorem_status": "lower bound for every valid script (full); LCS minimal for all inputs and sub-ranges (full); clean-up and Replace keep item counts (partial correctness of Compact); Myers minimal (full: raw stream costs N+M-2L and beats every valid script; theory in Lemmas/MyersTheory+MyersOptimal); captured LCS minimal; captured Myers: counts preserved by the pipeline (C10) so minimal as well",
-        "level_text": "Lean theorems: cost >= N+M-2L for every valid script; LCS raw stream attains it (table correctness + greedy walk optimality + prefix/suffix stripping); clean-up preserves counts. Myers minimality is validated on the implementation by brute force on the whole explored space.",
+        "level_text": "Lean theorems: cost >= N+M-2L for every valid script; LCS raw stream attains it (table correctness + greedy walk optimality + prefix/suffix stripping); clean-up preserves counts; Myers raw stream attains it as well (middle-snake theory: the split point lies on an optimal path). Minimality is also validated on the implementation by brute force on the whole explored space.",
         "level_note": "Spec.lcsLen is the textbook recursion; ratio = 2L/(N+M) is proved for the exact fraction, the f32 value is compared bit for bit by the correspondence",
     },
     "C06": {
@@ -105,9 +105,9 @@ PROPS.update({
         "module": "SimilarVerif.Props.C09",
         "suites": ["cap", "script", "deadline"],
         "rule": "cap/deadline/script as for C02/C07/C10; the normal-form validator (alternation, no empty op, delete+insert merged, insert at latest position) runs on every captured op list and on every arbitrary script pushed through Compact+Replace",
-        "theorem_status": "clauses 1-3 (alternation, no adjacent changes, no empty op) full for Replace on any valid script; clause 4 (insertion at latest position): Lemmas/CompactTotal.lean in progress, covered by correspondence + validator",
-        "level_text": "Lean theorems for the Replace stage on every valid script; clean-up model compared with the code on all valid scripts of a small scope.",
-        "level_note": "clause 4 not yet a theorem",
+        "theorem_status": "clauses 1-3 (alternation, no adjacent changes, no empty op) full for Replace on any valid script; clause 4 (insertion at latest position) full for the clean-up output (CompactT.cleanup_insert_latest, both swap variants)",
+        "level_text": "Lean theorems: clauses 1-3 for the Replace stage on every valid script, clause 4 (insertion at its latest position) for the output of the clean-up on every valid script (shipped and repaired swap); clean-up model compared with the code on all valid scripts of a small scope and on every captured diff.",
+        "level_note": "clause 4 is proved for the clean-up output; its transport through the Replace stage (which merges neighbours) is covered by the normal-form validator on every captured op list",
     },
     "C11": {
         "title": "Every captured op carries exact positions in both sequences",
@@ -124,8 +124,8 @@ PROPS.update({
         "suites": ["raw", "cap"],
         "rule": "raw/cap as for C01/C02; for every Patience run (raw and captured) the validator computes the longest common in-order subsequence of the items unique on both sides by brute force and compares with the number of such items reported Equal",
         "theorem_status": "full: pairing clause (an anchored item is matched to its unique counterpart) and size clause (a chain of lcsLen(unique old, unique new) anchor pairs is reported Equal: the outer Myers run over the unique lists is optimal and every pair it reports reaches the user stream), raw stream, no deadline; the captured variant follows from C10 (the clean-up never moves deletions and keeps counts) and is validated by the brute-force LIS validator",
-        "level_text": "Lean theorems: Patience streams are valid scripts; equal segments pair equal items, hence unique items their counterparts; unique() is ascending and in range.",
-        "level_note": "the captured-ops variant of the size clause is validated, not a separate theorem",
+        "level_text": "Lean theorems: Patience streams are valid scripts; equal segments pair equal items, hence unique items their counterparts; unique() is ascending and in range; size clause: at least lcsLen(unique old, unique new) anchors are reported Equal (no deadline).",
+        "level_note": "size clause proved for the raw stream (outer Myers run over the unique lists is optimal and every pair it reports reaches the user); the captured-ops variant of the size clause is validated by the brute-force LIS validator, not a separate theorem",
     },
     "C19": {
         "title": "Myers and Patience do work proportional to (N+M)*(D+1)",
@@ -134,8 +134,8 @@ PROPS.update({
         "suites": ["cost"],
         "rule": "cost: 700 (thorough 6000) generated pairs up to 600 (thorough 3000) items per side from 7 families (near-identical, block moves, periodic, heavy repeats, unrelated, unique-rich, small alphabet) x Myers and Patience; comparisons counted by the element type; non-trivial = near-identical (D*8 < N+M)",
         "theorem_status": "Myers full: cmps <= 22 (N+M+1)(D+1) for every input without deadline (potential argument + middle-snake theory); per-scan costs; Patience full: cmps <= 57 (N+M+1)(D+1) with D the size of the script it reports, for element tests that come from two label sequences (EqPattern; false for inconsistent same-side relations, counterexample recorded): 22 for the outer run over the unique items, whose edit distance is at most the cost of any valid script (outer_le_cost), at most 35 for scans, gap runs and tail run; measured on the implementation: cross comparisons below 0.9 (N+M+1)(D+1), same-side below 1.4 per item",
-        "level_text": "Lean theorems for the cost of the prefix/suffix scans; the cost model (exact comparison counts) is validated against the code on every request of every suite; the (N+M+1)(D+1) bound is checked by measurement.",
-        "level_note": "the proved constant (22) is far from the measured one (< 0.9); the Patience composite bound is not a theorem; wall-clock time is not modelled, comparisons are the proxy the property names",
+        "level_text": "Lean theorems for the cost of the prefix/suffix scans; the cost model (exact comparison counts) is validated against the code on every request of every suite; the (N+M+1)(D+1) bound is a theorem for Myers (constant 22) and for Patience (constant 57, D its own script) and is also checked by measurement (constant 3).",
+        "level_note": "the proved constants (22, 57) are far from the measured one (< 0.9); the Patience bound needs element tests that come from two label sequences (EqPattern; counterexample without it in the Props file); wall-clock time is not modelled, comparisons are the proxy the property names",
     },
     "C20": {
         "title": "Diffs are deterministic and depend only on the equality pattern of the items",
